@@ -385,6 +385,29 @@ def _degenerate_gauge(cell):
     return cell["data"].startswith("zsum") and cell["dims"] != "2"
 
 
+def _gauge_what(bp):
+    """Classify a get_gauged_tn cell from the messages alone (before reading
+    any result): the implementation inverts the eigenvector matrix of the
+    rank-1 matrix outer(ma, mb); when LAPACK returns numerically parallel
+    eigenvectors for the degenerate zero eigenvalue (bond dimension >= 3) that
+    inverse is garbage.  Those cells get their own 'what' so the recorded
+    finding C14-gauged-tn-singular-eigenvectors names them and nothing else."""
+    try:
+        for ind, tids in bp.tn.ind_map.items():
+            if len(tids) != 2:
+                continue
+            ta, tb = tids
+            ka, kb = ((ind, ta), (ind, tb)) if (ind, ta) in bp.messages else ((ta, ind), (tb, ind))
+            m = np.outer(np.asarray(bp.messages[ka]), np.asarray(bp.messages[kb]))
+            el, ev = np.linalg.eig(m)
+            ev = ev[:, np.argsort(-np.abs(el))]
+            if not np.linalg.cond(ev) < 1e8:
+                return "value-singular-gauge-eigenvectors"
+    except Exception:
+        pass
+    return "value"
+
+
 class _Eval:
     """Collects one table result per entry point of one cell."""
 
@@ -664,9 +687,10 @@ def _entries_D1BP(E, cell, g, arrs, ex, tn, bp):
     try:
         if _degenerate_gauge(cell):
             raise _Skip()
+        gw = _gauge_what(bp)
         full, zero = gauged()
-        E.scalar("get_gauged_tn.contract", lambda: full, Z)
-        E.scalar("get_gauged_tn.zeroth_entries", lambda: zero, Z)
+        E.scalar("get_gauged_tn.contract", lambda: full, Z, what=gw)
+        E.scalar("get_gauged_tn.zeroth_entries", lambda: zero, Z, what=gw)
     except _Skip:
         pass
     except Exception as exn:
@@ -750,9 +774,10 @@ def _entries_HD1BP(E, cell, g, arrs, ex, tn, bp):
                 return tg.contract(all, output_inds=()), zero
 
             try:
+                gw = _gauge_what(bp)
                 full, zero = gauged()
-                E.scalar("get_gauged_tn.contract", lambda: full, Z)
-                E.scalar("get_gauged_tn.zeroth_entries", lambda: zero, Z)
+                E.scalar("get_gauged_tn.contract", lambda: full, Z, what=gw)
+                E.scalar("get_gauged_tn.zeroth_entries", lambda: zero, Z, what=gw)
             except Exception as exn:
                 E.bad("get_gauged_tn.contract", "exception", "%s: %s" % (type(exn).__name__, str(exn)[:200]))
     try:
